@@ -48,6 +48,11 @@ def _raw_build_failure(tpl, exc):
     from vtlengine.Exceptions import VTLEngineException
     if isinstance(exc, VTLEngineException):
         return None
+    # only failures of the stages AFTER semantic analysis count: a script that semantic analysis itself rejects (even with an uncoded
+    # exception) is outside the behavioural properties (its error is C26's subject)
+    frames = traceback.extract_tb(exc.__traceback__)
+    if not any("duckdb_transpiler" in (f.filename or "") for f in frames):
+        return None
     structs = R.structures(*tpl["structs"], scalars=tpl.get("scalars") or None)
     DEF = {"Integer": 1, "Number": 1.5, "String": "a", "Boolean": True, "Date": "2020-01-01", "Time_Period": "2020-M01", "Time": "2020-01-01/2020-01-31", "Duration": "M"}
     dfs = {}
